@@ -369,6 +369,19 @@ class Canon(object):
         self.fns = []
         self.never_none = set(never_none)
         self.sentinels = set(sentinels)
+        self._thread_mode = 'none'
+
+    def _truth_state(self, stmts, x):
+        """like _none_state, for the truth value of x: True / False when the block ends by binding x to a literal, 'dead', else None"""
+        if not stmts:
+            return None
+        last = stmts[-1]
+        if isinstance(last, TERMINATORS):
+            return 'dead'
+        if isinstance(last, ast.Assign) and len(last.targets) == 1 and isinstance(last.targets[0], ast.Name) and last.targets[0].id == x \
+                and isinstance(last.value, ast.Constant):
+            return bool(last.value.value)
+        return None
 
     def _none_state(self, stmts, x):
         """what the last statement of a block says about `x is None` when control leaves the block at its end:
@@ -489,34 +502,59 @@ class Canon(object):
                     return self._read_first(arm[0], name_node)
         return False
 
+    def _push(self, stmts, x, nxt, is_none_true):
+        """*stmts* with the decided copy of the `if x is [not] None` statement *nxt* appended at every place where control leaves the
+        block at its end; None when the value of x is not known at one of those places.  Recurses through trailing if/else chains."""
+        if not stmts:
+            return None
+        last = stmts[-1]
+        if isinstance(last, ast.If) and last.orelse and not isinstance(last, TERMINATORS):
+            b = self._push(last.body, x, nxt, is_none_true)
+            e = self._push(last.orelse, x, nxt, is_none_true)
+            if b is None or e is None:
+                return None
+            return list(stmts[:-1]) + [ast.copy_location(ast.If(test=last.test, body=b, orelse=e), last)]
+        st = self._none_state(stmts, x) if self._thread_mode == 'none' else self._truth_state(stmts, x)
+        if st == 'dead':
+            return list(stmts)
+        if st in (True, False):
+            taken = nxt.body if (st == is_none_true) else nxt.orelse
+            return list(stmts) + [copy.deepcopy(z) for z in taken]
+        return None
+
     def thread(self, body):
-        """N38  <if/else whose branches end by binding x> ; if x is [not] None: B [else: C]   ->   the second test moves into the branches of
-        the first and is decided there where the binding says so (x = None / x = <a call that never yields None>).  This is how a
-        helper that reports "nothing to do" by returning None reads after it has been written back into its caller."""
+        """N38  <if/else (chain) whose branches end by binding x> ; if x is [not] None: B [else: C]   ->   the second test moves into the branches of
+        the first and is decided there where the binding says so (x = None / x = <a literal> / x = <a call that never yields None>).  This is how a
+        helper that reports "nothing to do" by returning None reads after it has been written back into its caller, and how a table lookup
+        with a None entry for "carry on" does."""
         out = []
         i = 0
         while i < len(body):
             s = body[i]
             nxt = body[i + 1] if i + 1 < len(body) else None
-            if isinstance(s, ast.If) and isinstance(nxt, ast.If) and _size([nxt]) <= 40:
+            if isinstance(s, ast.If) and s.orelse and isinstance(nxt, ast.If) and _size([nxt]) <= 40:
                 t = nxt.test
                 neg = False
                 while isinstance(t, ast.UnaryOp) and isinstance(t.op, ast.Not):
                     t, neg = t.operand, not neg
+                x = None
                 if isinstance(t, ast.Compare) and len(t.ops) == 1 and isinstance(t.ops[0], (ast.Is, ast.IsNot)) and isinstance(t.left, ast.Name) \
                         and isinstance(t.comparators[0], ast.Constant) and t.comparators[0].value is None:
                     x = t.left.id
                     is_none_true = isinstance(t.ops[0], ast.Is) != neg          # the test is true exactly when x is None
-                    sb, se = self._none_state(s.body, x), self._none_state(s.orelse, x)
-                    if (sb in (True, False) or se in (True, False)) and sb is not None and se is not None and s.orelse:
-                        def tail(state):
-                            if state == 'dead':
-                                return []
-                            taken = nxt.body if (state == is_none_true) else nxt.orelse
-                            return [copy.deepcopy(z) for z in taken]
-                        s.body = self.block(list(s.body) + tail(sb)) or [ast.copy_location(ast.Pass(), s)]
-                        s.orelse = self.block(list(s.orelse) + tail(se))
-                        out.append(s)
+                    self._thread_mode = 'none'
+                elif isinstance(t, ast.Name):
+                    # `if flag:` / `if not flag:` after branches that end in `flag = True` / `flag = False`
+                    x = t.id
+                    is_none_true = not neg          # (here: the test is true exactly when x is TRUE)
+                    self._thread_mode = 'truth'
+                if x is not None:
+                    new = self._push([s], x, nxt, is_none_true)
+                    if new is not None and len(new) == 1:
+                        ns = new[0]
+                        ns.body = self.block(ns.body) or [ast.copy_location(ast.Pass(), s)]
+                        ns.orelse = self.block(ns.orelse)
+                        out.append(ns)
                         self.hit('N38')
                         i += 2
                         continue
@@ -812,6 +850,10 @@ class Canon(object):
                     and all(_pure(v) for v in n.value.values) and len(set(k.value for k in n.value.keys)) == len(n.value.keys) \
                     and not any(isinstance(p_, (ast.For, ast.While, ast.AsyncFor)) for p_ in _parents(fn, n)):
                 tables[n.targets[0].id] = n
+        # module-level lookup tables (bound once at module level to a dict literal of constants, only read anywhere in the module)
+        for name, node in getattr(self, 'mod_tables', {}).items():
+            if name not in stores and name not in params and name not in tables:
+                tables[name] = node
         if not tables:
             return
         # every read of the table must be one of the understood forms
@@ -837,7 +879,7 @@ class Canon(object):
                         continue
                     if isinstance(p, ast.Call) and isinstance(p.func, ast.Name) and p.func.id == 'sorted' and p.args == [n] and not p.keywords:
                         continue
-                    if isinstance(p, ast.Attribute) and p.attr == 'keys' and isinstance(par.get(id(p)), ast.Call):
+                    if isinstance(p, ast.Attribute) and p.attr in ('keys', 'get') and isinstance(par.get(id(p)), ast.Call):
                         continue
                     ok = False
             if not ok:
@@ -896,6 +938,17 @@ class Canon(object):
                 if isinstance(n.func, ast.Attribute) and n.func.attr == 'keys' and isinstance(n.func.value, ast.Name) and n.func.value.id in tables and not n.args:
                     canon.hit('N46')
                     return keys_tuple(n.func.value.id, n, False)
+                if isinstance(n.func, ast.Attribute) and n.func.attr == 'get' and isinstance(n.func.value, ast.Name) and n.func.value.id in tables \
+                        and 1 <= len(n.args) <= 2 and not n.keywords:
+                    key = n.args[0]
+                    if isinstance(key, ast.Name) and key.id in self_.known:
+                        key = self_.known[key.id]
+                    if isinstance(key, ast.Constant) and (len(n.args) == 1 or _pure(n.args[1])):
+                        v = lookup(n.func.value.id, key.value)
+                        canon.hit('N46')
+                        if v is not None:
+                            return ast.copy_location(v, n)
+                        return n.args[1] if len(n.args) == 2 else ast.copy_location(ast.Constant(value=None), n)
                 return n
 
             def visit_For(self_, n):
@@ -929,6 +982,41 @@ class Canon(object):
                 n.orelse = [self_.visit(st) for st in n.orelse]
                 self_.known = saved
                 return n
+        # x = D.get(<name>, <default>)   ->   if <name> == k1: x = v1 elif ... else: x = <default>
+        def chains(stmts):
+            out = []
+            for st in stmts:
+                for f_ in ('body', 'orelse', 'finalbody'):
+                    v = getattr(st, f_, None)
+                    if isinstance(v, list) and v and isinstance(v[0], ast.stmt) and not isinstance(st, (ast.FunctionDef, ast.AsyncFunctionDef, ast.ClassDef)):
+                        setattr(st, f_, chains(v))
+                if isinstance(st, ast.Try):
+                    for h in st.handlers:
+                        h.body = chains(h.body)
+                k = st.value if isinstance(st, (ast.Assign, ast.Return)) else None
+                if isinstance(k, ast.Call) and isinstance(k.func, ast.Attribute) and k.func.attr == 'get' and isinstance(k.func.value, ast.Name) \
+                        and k.func.value.id in tables and 1 <= len(k.args) <= 2 and not k.keywords and isinstance(k.args[0], ast.Name) \
+                        and (len(k.args) == 1 or _pure(k.args[1])) \
+                        and not (isinstance(st, ast.Assign) and any(isinstance(x, ast.Name) and x.id == k.args[0].id for t_ in st.targets for x in ast.walk(t_))):
+                    d = tables[k.func.value.id]
+                    dflt = k.args[1] if len(k.args) == 2 else ast.copy_location(ast.Constant(value=None), k)
+
+                    def mk(val):
+                        n_ = copy.copy(st)
+                        if isinstance(st, ast.Assign):
+                            n_.targets = [copy.deepcopy(t_) for t_ in st.targets]
+                        n_.value = copy.deepcopy(val)
+                        return n_
+                    chain = [mk(dflt)]
+                    for kk, vv in reversed(list(zip(d.value.keys, d.value.values))):
+                        test = ast.copy_location(ast.Compare(left=copy.deepcopy(k.args[0]), ops=[ast.Eq()], comparators=[copy.deepcopy(kk)]), st)
+                        chain = [ast.copy_location(ast.If(test=test, body=[mk(vv)], orelse=chain), st)]
+                    out.extend(chain)
+                    canon.hit('N46')
+                    continue
+                out.append(st)
+            return out
+        fn.body = chains(fn.body)
         T().visit(fn)
 
     def method_aliases(self, fn):
@@ -975,9 +1063,43 @@ class Canon(object):
         T().visit(fn)
         self.hit('N43')
 
+    def _module_tables(self, tree):
+        cnt, val = {}, {}
+        for st in tree.body:
+            if isinstance(st, ast.Assign):
+                for t in st.targets:
+                    for x in ast.walk(t):
+                        if isinstance(x, ast.Name):
+                            cnt[x.id] = cnt.get(x.id, 0) + 1
+                            val[x.id] = st if (len(st.targets) == 1 and t is x) else None
+        out = {}
+        for name, st in val.items():
+            if st is None or cnt[name] != 1 or not isinstance(st.value, ast.Dict) or not (1 <= len(st.value.keys) <= 12):
+                continue
+            if not all(isinstance(k, ast.Constant) and isinstance(k.value, (int, str, bytes)) for k in st.value.keys):
+                continue
+            if not all(isinstance(v, ast.Constant) for v in st.value.values) or len(set(k.value for k in st.value.keys)) != len(st.value.keys):
+                continue
+            # bound nowhere else (no local of that name, no global statement, no mutation through a method or an item store)
+            bad = False
+            for n in ast.walk(tree):
+                if isinstance(n, ast.Name) and n.id == name and isinstance(n.ctx, (ast.Store, ast.Del)) and n is not st.targets[0]:
+                    bad = True
+                if isinstance(n, ast.Global) and name in n.names:
+                    bad = True
+                if isinstance(n, ast.Subscript) and isinstance(n.ctx, (ast.Store, ast.Del)) and isinstance(n.value, ast.Name) and n.value.id == name:
+                    bad = True
+                if isinstance(n, ast.Call) and isinstance(n.func, ast.Attribute) and isinstance(n.func.value, ast.Name) and n.func.value.id == name \
+                        and n.func.attr not in ('get', 'keys', 'items', 'values'):
+                    bad = True
+            if not bad:
+                out[name] = st
+        return out
+
     def module(self, tree):
         tree = self.ex.visit(tree)
         unshare(tree)
+        self.mod_tables = self._module_tables(tree)
         for fn in ast.walk(tree):
             if isinstance(fn, (ast.FunctionDef, ast.AsyncFunctionDef)):
                 self.method_aliases(fn)
